@@ -420,6 +420,26 @@ pub fn main(args: &util::Args) {
             out.push_str(&o2);
         }
     }
+    // ---- hand-written ill-typed witnesses kept as files (corpus/C03/neg/*.gom): typer diagnostics no generated
+    // program reaches (tools/coverage_audit.py, class b); each must be rejected by the typer
+    {
+        let mut files: Vec<_> = std::fs::read_dir(util::verif_root().join("corpus/C03/neg"))
+            .map(|rd| rd.filter_map(|e| e.ok().map(|e| e.path())).filter(|p| p.extension().is_some_and(|x| x == "gom")).collect())
+            .unwrap_or_default();
+        files.sort();
+        for f in files {
+            let Ok(src) = std::fs::read_to_string(&f) else { continue };
+            let id = format!("illc:{}", f.file_stem().unwrap().to_string_lossy());
+            let st = run_in(&dir, &src);
+            let (outcome, stage, msg) = match &st.stop {
+                None => ("accepted", "", String::new()),
+                Some((k, stage, m)) => (if *k == "reject" { "rejected" } else { "panic" }, *stage, m.clone()),
+            };
+            *kinds_total.entry("corpus-neg".to_string()).or_default() += 1;
+            writeln!(out, "{}\tSRC\t{}", id, esc_line(&src)).unwrap();
+            writeln!(out, "{}\tILL\tcorpus-neg\t{}\t{}\t{}\t{}", id, f.file_stem().unwrap().to_string_lossy(), outcome, stage, esc_line(&msg)).unwrap();
+        }
+    }
     writeln!(out, "#KINDS\t{}", kinds_total.iter().map(|(k, v)| format!("{}={}", k, v)).collect::<Vec<_>>().join(" ")).unwrap();
     writeln!(out, "#FEATS\t{}", feats_total.iter().map(|(k, v)| format!("{}={}", k, v)).collect::<Vec<_>>().join(" ")).unwrap();
     let _ = std::fs::remove_dir_all(&dir);
